@@ -468,6 +468,13 @@ func (c16) Case(c *core.Ctx) {
 		}
 		file("Maps.XmlFile", mvs.XmlFile(fn), xs)
 		file("Maps.XmlFileIndent", mvs.XmlFileIndent(fn, prefix, indent), xis)
+		// written over an existing, longer file: the file must be replaced, not patched
+		os.WriteFile(fn, bytes.Repeat([]byte("<stale/>\n"), 400), 0o644)
+		file("Maps.XmlFile(over existing file)", mvs.XmlFile(fn), xs)
+		os.WriteFile(fn, bytes.Repeat([]byte("<stale/>\n"), 400), 0o644)
+		file("Maps.XmlFileIndent(over existing file)", mvs.XmlFileIndent(fn, prefix, indent), xis)
+		os.WriteFile(fn, bytes.Repeat([]byte("{\"stale\":1}\n"), 400), 0o644)
+		file("Maps.JsonFileIndent(over existing file)", mvs.JsonFileIndent(fn, prefix, indent), jis)
 		file("Maps.JsonFile", mvs.JsonFile(fn), js)
 		file("Maps.JsonFile(safe)", mvs.JsonFile(fn, true), jss)
 		file("Maps.JsonFileIndent", mvs.JsonFileIndent(fn, prefix, indent), jis)
